@@ -10,7 +10,7 @@ from ._status import AllocatedCode, ConsumedCode
 
 
 def validate_nameplate(nameplate):
-    if not re.search(r'^\d+$', nameplate):
+    if not re.search(r'^\d+\Z', nameplate):
         raise KeyFormatError(
             f"Nameplate '{nameplate}' must be numeric, with no spaces.")
 
